@@ -25,6 +25,7 @@ META = {
                     'before it, and every later valid step and query behaves per C15'],
 }
 META['bounds'].append('converter updates: optionally a rate named by the code of an unregistered ISO currency first; unit directories compared before / after')
+META['bounds'].append('3 declarations the library may accept or reject (quantum zero / negative): accepted, or rejected without a trace')
 
 POOL_SYMS = ['awdup', 'dw', 'abdup', 'dup2', 'ax', 'ay', 'az', 'a1x', 'aw', 'dx', 'dy', 'dz', 'dv', 'QQY', 'sqa2']
 
